@@ -4,6 +4,9 @@ from pathlib import Path
 HERE = Path(__file__).resolve().parent
 ALL = ["tri", "floats", "strings", "containers", "account", "colors", "queue_", "printer", "lastcall", "safefloats"]
 RANDOM_USING = ["rng_user"]
+# deterministic, but with unannotated / Union parameters, a class hierarchy and a pragma-excluded branch; used by C16 only
+# (kept out of ALL so that the workloads of the other whole-pipeline checks do not change)
+EXTRA = ["untyped"]
 
 
 def copy_to(dest, names=None):
